@@ -24,29 +24,33 @@ def addNVertices (k : Kernel) (n : Nat) : Kernel :=
 def findEdgeBU (k : Kernel) (a b : Nat) : Option Nat :=
   ((k.outOf a).find? (fun he => k.toV he == b)).map eOf
 
-/-- duplicate search by linear scan over *all* edge slots (cc:135-141) -/
+/-- duplicate search by linear scan over the not-deleted edge slots (cc:135-142) -/
 def findEdgeScan (k : Kernel) (a b : Nat) : Option Nat :=
   (List.range k.nE).find? (fun i =>
     let e := k.edgeAt i
-    (e.1 == a && e.2 == b) || (e.1 == b && e.2 == a))
+    !k.eDeleted i && ((e.1 == a && e.2 == b) || (e.1 == b && e.2 == a)))
+
+/-- the duplicate search `add_edge` performs (cc:123-143) -/
+def findEdge (k : Kernel) (a b : Nat) (allowDup : Bool) : Option Nat :=
+  if allowDup then none else if k.vBU then k.findEdgeBU a b else k.findEdgeScan a b
+
+/-- store a new edge and update the caches (cc:145-168) -/
+def addEdgeCore (k : Kernel) (a b : Nat) : Kernel :=
+  let eh := k.nE
+  let k1 := { k with edges := k.edges ++ [(a, b)], eDel := k.eDel ++ [false],
+                     props := resizeE k.props (eh + 1) }
+  let k2 := if k1.vBU then
+      { k1 with outHes := (k1.outHes.modify a (· ++ [heOf eh 0])).modify b (· ++ [heOf eh 1]) }
+    else k1
+  if k2.eBU then { k2 with incHfs := resizeL k2.incHfs k2.nHE [] } else k2
 
 /-- TopologyKernel.cc:113-169 -/
 def addEdge (k : Kernel) (a b : Nat) (allowDup : Bool) : Kernel × Nat :=
-  let found := if allowDup then none else if k.vBU then k.findEdgeBU a b else k.findEdgeScan a b
-  match found with
+  match k.findEdge a b allowDup with
   | some e => (k, e)
-  | none =>
-    let eh := k.nE
-    let k1 := { k with edges := k.edges ++ [(a, b)], eDel := k.eDel ++ [false],
-                       props := resizeE k.props (eh + 1) }
-    let k2 := if k1.vBU then
-        let o1 := k1.outHes.modify a (· ++ [heOf eh 0])
-        { k1 with outHes := o1.modify b (· ++ [heOf eh 1]) }
-      else k1
-    let k3 := if k2.eBU then { k2 with incHfs := resizeL k2.incHfs k2.nHE [] } else k2
-    (k3, eh)
+  | none => (k.addEdgeCore a b, k.nE)
 
-/-- the connectivity test of `add_face` (cc:184-194); `none` = `back()` of an empty vector -/
+/-- the connectivity test of `add_face` (cc:184-197); `none` = empty list -/
 def faceLoopOk (k : Kernel) (hes : List Nat) : Option Bool :=
   match hes.getLast?, hes.head? with
   | some l, some h =>
@@ -54,22 +58,24 @@ def faceLoopOk (k : Kernel) (hes : List Nat) : Option Bool :=
           && k.toV l == k.fromV h)
   | _, _ => none
 
+/-- does `add_face(hes, chk)` accept?  (the empty list under topology check is rejected) -/
+def addFaceAccepts (k : Kernel) (hes : List Nat) (chk : Bool) : Bool :=
+  !chk || k.faceLoopOk hes == some true
+
+/-- create the face and update the caches (cc:199-227) -/
+def addFaceCore (k : Kernel) (hes : List Nat) : Kernel :=
+  let fh := k.nF
+  let k1 := { k with faces := k.faces ++ [hes], fDel := k.fDel ++ [false],
+                     props := resizeF k.props (fh + 1) }
+  let k2 := if k1.eBU then
+      { k1 with incHfs := hes.foldl (fun inc heh =>
+          (inc.modify heh (· ++ [heOf fh 0])).modify (opp heh) (· ++ [heOf fh 1])) k1.incHfs }
+    else k1
+  if k2.fBU then { k2 with incCell := resizeL k2.incCell k2.nHF none } else k2
+
 /-- TopologyKernel.cc:174-227.  `none` result = `InvalidFaceHandle`. -/
 def addFace (k : Kernel) (hes : List Nat) (chk : Bool) : Kernel × Option Nat :=
-  let ok : Option Bool := if chk then k.faceLoopOk hes else some true
-  match ok with
-  | none => ({ k with fault := true }, none)
-  | some false => (k, none)
-  | some true =>
-    let fh := k.nF
-    let k1 := { k with faces := k.faces ++ [hes], fDel := k.fDel ++ [false],
-                       props := resizeF k.props (fh + 1) }
-    let k2 := if k1.eBU then
-        { k1 with incHfs := hes.foldl (fun inc heh =>
-            (inc.modify heh (· ++ [heOf fh 0])).modify (opp heh) (· ++ [heOf fh 1])) k1.incHfs }
-      else k1
-    let k3 := if k2.fBU then { k2 with incCell := resizeL k2.incCell k2.nHF none } else k2
-    (k3, some fh)
+  if k.addFaceAccepts hes chk then (k.addFaceCore hes, some k.nF) else (k, none)
 
 /-- `add_face(vertices)` (cc:235-267): find-or-create each edge, then unchecked `add_face`
     (the pinned build defines NDEBUG). -/
@@ -181,16 +187,20 @@ def reorderList (k : Kernel) (e : Nat) : Option (List Nat) :=
     `src.length` slots of `dst` (the C++ does not resize `dst`) -/
 def overwritePrefix (dst src : List Nat) : List Nat := src ++ dst.drop src.length
 
+/-- write the ordered list back: slot `2e` gets `l`, slot `2e+1` its mirrored reverse
+    (cc:360-366).  Writing more elements than the destination holds is an out-of-bounds write
+    in the C++ (ghost `fault`). -/
+def reorderWrite (k : Kernel) (e : Nat) (l : List Nat) : Kernel :=
+  { k with
+    incHfs := (k.incHfs.set (heOf e 0) l).set (heOf e 1)
+      (overwritePrefix ((k.incHfs.set (heOf e 0) l).getD (heOf e 1) [])
+        ((l.reverse.map opp).take ((k.incHfs.set (heOf e 0) l).getD (heOf e 1) []).length)),
+    fault := k.fault || decide (((k.incHfs.set (heOf e 0) l).getD (heOf e 1) []).length < l.length) }
+
 def reorder (k : Kernel) (e : Nat) : Kernel :=
   match k.reorderList e with
   | none => k
-  | some l =>
-    let inc1 := k.incHfs.set (heOf e 0) l
-    let dst := inc1.getD (heOf e 1) []
-    let mir := (l.reverse.map opp)
-    -- writing more elements than `dst` holds is an out-of-bounds write in the C++
-    let k' := { k with incHfs := inc1.set (heOf e 1) (overwritePrefix dst (mir.take dst.length)) }
-    if mir.length > dst.length then { k' with fault := true } else k'
+  | some l => k.reorderWrite e l
 
 /-! ### add_cell (cc:378-489) -/
 
@@ -206,18 +216,22 @@ def cellCheck (k : Kernel) (hfs : List Nat) : Bool :=
 def cellEdges (k : Kernel) (hfs : List Nat) : List Nat :=
   toSet ((hfs.flatMap (fun hf => k.faceAt (eOf hf))).map eOf)
 
+/-- does `add_cell(hfs, chk)` accept? -/
+def addCellAccepts (k : Kernel) (hfs : List Nat) (chk : Bool) : Bool :=
+  !chk || (!hfs.isEmpty && k.cellCheck hfs)
+
+/-- create the cell and update the caches (cc:438-488) -/
+def addCellCore (k : Kernel) (hfs : List Nat) : Kernel :=
+  let ch := k.nC
+  let k1 := { k with cells := k.cells ++ [hfs], cDel := k.cDel ++ [false],
+                     props := resizeC k.props (ch + 1) }
+  if k1.fBU then
+    let k2 := { k1 with incCell := hfs.foldl (fun ic hf => ic.set hf (some ch)) k1.incCell }
+    if k2.eBU then (k2.cellEdges hfs).foldl reorder k2 else k2
+  else k1
+
 def addCell (k : Kernel) (hfs : List Nat) (chk : Bool) : Kernel × Option Nat :=
-  if chk && hfs.isEmpty then ({ k with fault := true }, none)     -- `_halffaces[0]`
-  else if chk && !k.cellCheck hfs then (k, none)
-  else
-    let ch := k.nC
-    let k1 := { k with cells := k.cells ++ [hfs], cDel := k.cDel ++ [false],
-                       props := resizeC k.props (ch + 1) }
-    if k1.fBU then
-      let k2 := { k1 with incCell := hfs.foldl (fun ic hf => ic.set hf (some ch)) k1.incCell }
-      let k3 := if k2.eBU then (k2.cellEdges hfs).foldl reorder k2 else k2
-      (k3, some ch)
-    else (k1, some ch)
+  if k.addCellAccepts hfs chk then (k.addCellCore hfs, some k.nC) else (k, none)
 
 /-! ### set_edge / set_face / set_cell (cc:495-592) -/
 
